@@ -195,6 +195,31 @@ def run_uniform(col):
             and all(is_zero(P(a) - P(b)) for a, b in zip(dhdX.reshape(-1), it.getattr(reg1, "dhdX").reshape(-1))),
             "dV %s dhdX %s" % (dV.shape, dhdX.shape))
     col.add("C06.O6", "Region.uniform flag", "the region records that it is uniform", it.getattr(reg, "uniform") is True)
+    # the compressed (one cell) storage is a promise about the mesh the caller makes with uniform=True; a later re-evaluation that does not
+    # repeat the promise (reload() after the points were moved, copy(mesh) onto another mesh) measures every cell again
+    cls = it.get("felupe.region._region:Region")
+    pos = lambda a, b, op: ({"<": False, "<=": False, ">": True, ">=": True}[op] if (b.is_const() and b.const_value() == 0) else None)
+    for how in ("reload()", "reload(mesh)", "copy()", "copy(mesh)"):
+        ring.ORDER_ORACLE[0] = pos
+        try:
+            r0, m0, el0, qd0 = make_region(it, d, na, nq, 2, uniform=True)
+            m0.points = symarray("Ymoved", m0.points.shape)
+            if how == "reload()":
+                it.call_method(r0, "reload", [])
+                got = r0
+            elif how == "reload(mesh)":
+                it.call_method(r0, "reload", [m0])
+                got = r0
+            elif how == "copy()":
+                got = it.call_method(r0, "copy", [])
+            else:
+                got = it.call_method(r0, "copy", [m0])
+            fresh = it.call(cls, [m0, el0, qd0], dict(grad=True))
+        finally:
+            ring.ORDER_ORACLE[0] = None
+        bad = _same_cached(it, got, fresh, names=("dXdr", "drdX", "dV", "dhdX"))
+        col.add("C06.O6", "Region(uniform=True).%s after the points were moved" % how, "a re-evaluation without uniform=True measures every cell of the current mesh (equal to a general region created on it)",
+                not bad, "%s: arrays %s are not those of the general evaluation" % (method_where(cls, "reload"), bad))
     finish_info(col, it)
 
 
@@ -253,6 +278,27 @@ def run_cache(col):
             bad = _same_cached(it, got, fresh)
             col.add("C06.O7", "Region.%s after the mesh points changed" % how, "the cached arrays are recomputed for the current mesh points (equal to those of a region created on the moved mesh)",
                     not bad, "%s: stale arrays %s" % (w, bad))
+        # one element object serves two regions with different quadrature rules (tools.extrapolate builds a helper region with the region's own
+        # element and the inverted rule): re-evaluating the first region -- with the mesh only -- still evaluates the basis at *its* rule
+        qd2 = QPoints(nq, d)
+        qd2.points = list(reversed(qd.points))
+        for how in ("reload()", "reload(mesh)", "copy()", "copy(mesh)"):
+            m1 = micro.FakeMesh(mesh.cells.tolist(), mesh.npoints, d)
+            r1 = it.call(cls, [m1, el, qd], dict(grad=True, hess=True))
+            it.call(cls, [micro.FakeMesh(mesh.cells.tolist(), mesh.npoints, d), el, qd2], dict(grad=False))
+            if how == "reload()":
+                it.call_method(r1, "reload", [])
+                got = r1
+            elif how == "reload(mesh)":
+                it.call_method(r1, "reload", [m1])
+                got = r1
+            elif how == "copy()":
+                got = it.call_method(r1, "copy", [])
+            else:
+                got = it.call_method(r1, "copy", [m1])
+            bad = _same_cached(it, got, reg)
+            col.add("C06.O7", "Region.%s after another region was built with the same element object" % how,
+                    "the basis arrays of a region are those of its own quadrature rule, whatever other region used the element in between", not bad, "%s: arrays %s belong to the other region's rule" % (w, bad))
     finally:
         ring.ORDER_ORACLE[0] = None
     finish_info(col, it)
